@@ -96,3 +96,20 @@ Proof.
   - exists P. exact Hadm.
   - intros j Hj (P' & HP2). pose proof (admissible_cover_is_at_least_walk_width I j P' Ae HP2 NDA HA Hinc). lia.
 Qed.
+
+(* non-vacuity: 1 -> 2 -> {3, 4} with a self-loop at 2 (a cycle; two sinks, so the node walk width is at least 2): every premise about the
+   caller's input holds, the reachability premise by the executable check WalkWidth.st_ok on the expanded s-t graph *)
+Definition cxV : list node := [1; 2; 3; 4]%N.
+Definition cxE : list PathEnc.edge := [(1, 2); (2, 2); (2, 3); (2, 4)]%N.
+Lemma cx_premises :
+  ~ In 100%N (expV cxV) /\ ~ In 101%N (expV cxV) /\ 100%N <> 101%N /\ (forall e, In e cxE -> In (fst e) cxV /\ In (snd e) cxV) /\ NoDup cxV /\ NoDup cxE /\
+  (let A' := aug_edges (expV cxV) (expE cxV cxE) (map x0 []) (map x1 []) 100%N 101%N in
+   forall u v, In (u, v) A' -> conn A' 100%N u /\ conn A' v 101%N) /\
+  nwalk cxV cxE [] [] [1; 2; 2; 3]%N /\ nwalk cxV cxE [] [] [1; 2; 4]%N.
+Proof.
+  split; [cbn; intuition discriminate|]. split; [cbn; intuition discriminate|]. split; [discriminate|].
+  split; [intros e He; cbn in He; destruct He as [<-|[<-|[<-|[<-|[]]]]]; cbn; tauto|].
+  split; [repeat constructor; cbn; intuition discriminate|]. split; [repeat constructor; cbn; intuition discriminate|].
+  split; [cbv zeta; apply st_ok_spec; vm_compute; reflexivity|].
+  split; unfold nwalk; (split; [discriminate|]); (split; [intros x Hx; cbn in Hx |- *; tauto|]); (split; [intros e He; cbn in He |- *; tauto|]); split; reflexivity.
+Qed.
